@@ -87,6 +87,16 @@ func (o OpUJ) String() string {
 		rootName(o.J.Root), o.J.Epoch, rootName(o.F.Root), o.F.Epoch, o.Bal)
 }
 
+// OpBlockUJ: a block whose post-state carries newer checkpoints, followed at once by the
+// justified/finalized update it triggers (what a client does in on_block). Keeps the invariant
+// that no node carries a justified/finalized epoch above the store's.
+type OpBlockUJ struct {
+	B   OpBlock
+	UJ  OpUJ
+}
+
+func (o OpBlockUJ) String() string { return o.B.String() + "+" + o.UJ.String() }
+
 type OpSetPin struct {
 	Root Root
 	Slot Slot
@@ -313,6 +323,12 @@ func (in *Inst) Apply(op fmt.Stringer, observe bool) (fs []seqx.Finding, outcome
 		f, oc := in.applyUJ(o)
 		fs = append(fs, f...)
 		outcome = oc
+	case OpBlockUJ:
+		f1, _ := in.Apply(o.B, false)
+		fs = append(fs, f1...)
+		f, oc := in.applyUJ(o.UJ)
+		fs = append(fs, f...)
+		outcome = "block+" + oc
 	default:
 		panic("unknown op")
 	}
@@ -449,6 +465,9 @@ func (in *Inst) applyUJ(o OpUJ) (fs []seqx.Finding, outcome string) {
 	for _, p := range res.Pruned {
 		if p.AfterAnchor && (exists(p.Ref) || (in.S.Sink != "nil" && !seen[p.Ref])) {
 			add([]string{"C10"}, kfSig, fmt.Sprintf("node %s (inserted after the finalized node, on a conflicting branch) is not a descendant of the finalized node but was neither dropped nor reported to the sink", p.Ref))
+			// model and implementation have diverged (known finding): this path is not explored further
+			// under any property, whatever follows would only restate the same defect.
+			in.broken = true
 			break
 		}
 	}
@@ -526,6 +545,10 @@ func (in *Inst) queryProps() []string {
 func (in *Inst) observe(asOp bool) (fs []seqx.Finding) {
 	m := in.M
 	// --- store level ---
+	if !(in.S.Props["C09"] || in.S.Props["C10"]) {
+		// Head() applies pending votes; the canonical-chain queries below are only defined w.r.t. applied votes
+		guard(func() { in.FC.Head() })
+	}
 	if in.S.Props["C09"] || in.S.Props["C10"] {
 		fs = append(fs, in.checkHead("after step")...)
 		if len(fs) > 0 {
